@@ -23,7 +23,7 @@ from .c12 import World as C12World
 
 ID = "C13"
 LEVEL = "exploration"
-RUNS = {"quick": 8000, "thorough": 100000}
+RUNS = {"quick": 5000, "thorough": 80000}
 RULE = (
     "each run: a BinaryTrie with a seeded history of 6-40 mutations (every root and its contents remembered) and 10-40 "
     "exchanges at seeded points: get_branch for a stored / absent / prefix / extension key at the current or an older "
@@ -357,16 +357,17 @@ def generate(rng):
     g = BHistory(rng, pool, values, probes)
     g.w["set"] += 3
     p_pre = rng.choice([0.0, 0.0, 0.3, 0.6])
-    cmds = [g.mutation() for _ in range(rng.choice(deep([6, 10, 16, 25, 40], [10, 20, 40, 70, 100])))]
-    for _ in range(rng.choice([10, 20, 40])):
-        pos = rng.randrange(len(cmds) // 3, len(cmds) + 1)
+    cmds = g.preload() or [g.mutation() for _ in range(rng.choice(deep([6, 10, 16, 25, 40], [10, 20, 40, 70, 100])))]
+    big = len(pool) > 100
+    for _ in range(rng.choice([10, 20, 40]) if not big else 6):
+        pos = rng.randrange(len(cmds) // 3, len(cmds) + 1) if not big else len(cmds)
         present = sorted(g.present)
         r = rng.random()
         k = rng.choice(present) if present and r < 0.45 else (rng.choice(pool) if r < 0.65 else rng.choice(probes))
         kind = rng.random()
         if kind < 0.6:
             c = {"op": "branch", "k": hx(k), "claims": [hx(rng.choice(values))]}
-            if rng.random() < 0.5:
+            if rng.random() < 0.5 and not big:
                 c["each"] = 1
             c["deliveries"] = [[gen_fault(rng, pool) for _ in range(rng.choice([1, 1, 2, 3]))] for _ in range(rng.choice([0, 1, 2, 3]))]
             if rng.random() < 0.4:
@@ -384,7 +385,7 @@ def generate(rng):
         if rng.random() < p_pre:
             c["pre_wh"] = [rng.randrange(1000) for _ in range(rng.choice([1, 2, 4, 8]))]
         cmds.insert(pos, c)
-    return {"prop": ID, "cfg": {"probe": [hx(k) for k in probes[:60]]}, "cmds": cmds}
+    return {"prop": ID, "cfg": {"probe": [hx(k) for k in probes[:60]], "store": rng.choice(["min", "min", "dict"])}, "cmds": cmds}
 
 
 def explore(rng, st):
